@@ -2,8 +2,10 @@ package e1
 
 import (
 	"fmt"
+	"os"
 
 	"kvassverif/internal/core"
+	"kvassverif/internal/e2"
 )
 
 type propDef struct {
@@ -18,6 +20,9 @@ type propDef struct {
 	nontriv  func(v *view) bool
 	exhaust  bool
 	crashSig string
+	// extra cases appended after the stub-cycle cases (e.g. closed-loop runs of another engine)
+	nExtra map[string]int
+	extra  func(w *core.WorkerCtx, k int) *core.CaseResult
 }
 
 func repsFor(d *propDef, tier string) int {
@@ -50,8 +55,11 @@ func register(d *propDef) {
 			"one coordination cycle with fresh shard objects is the unit of planner behaviour (the coordinator keeps no planning state between cycles)",
 			"map-iteration order and the weighted random choice are reached by repeating every case, not enumerated",
 		},
-		NumCases: func(tier string) int { return d.nDirect + d.nRandom[tier] },
+		NumCases: func(tier string) int { return d.nDirect + d.nRandom[tier] + d.nExtra[tier] },
 		Run: func(w *core.WorkerCtx, idx int) *core.CaseResult {
+			if base := d.nDirect + d.nRandom[w.Tier]; idx >= base && d.extra != nil {
+				return d.extra(w, idx-base)
+			}
 			c := d.caseAt(w, idx)
 			res := &core.CaseResult{Sig: c.signature()}
 			reps := repsFor(d, w.Tier)
@@ -491,6 +499,8 @@ func registerC05() {
 		judge: judgeC05, nDirect: nA + nB + nC, direct: direct,
 		bias:    genBias{unhealthyPer12: 2, moreTransfers: true},
 		nRandom: map[string]int{"quick": 20000, "thorough": 300000},
+		nExtra:  map[string]int{"quick": 160, "thorough": 4000},
+		extra:   c05ClosedLoop,
 		nontriv: func(v *view) bool {
 			for i := 0; i < v.n; i++ {
 				if !v.insync[i] {
@@ -678,3 +688,47 @@ func registerC08() {
 }
 
 var _ = fmt.Sprint
+
+// c05ClosedLoop: the hand-over rule on real sidecars, judged with scrape counts the harness takes itself.
+func c05ClosedLoop(w *core.WorkerCtx, k int) *core.CaseResult {
+	r := core.NewRng(w.Seed, 0xC05E2, uint64(k))
+	spec := e2.GenSpec(r)
+	e2.SanitizeInitial(&spec)
+	sc := e2.GenWorkload(r, spec)
+	// a third of the runs with a restart / lost update in the middle of moves
+	if k%3 == 0 {
+		kinds := []string{"restart", "dropPost", "loseAck", "unready", "failStatus"}
+		sc.Events = append(sc.Events, e2.Event{AtCycle: r.Intn(sc.Perturbed), Kind: kinds[r.Intn(len(kinds))], Shard: r.Intn(3), Cycles: 1})
+	}
+	root := e2.ScratchRoot(w.Scratch, 100000+k)
+	defer os.RemoveAll(root)
+	out := e2.Run(sc, root, r.Int63())
+	res := &core.CaseResult{Sig: fmt.Sprintf("closed-loop/%x", core.HashString(fmt.Sprintf("%+v", sc))), Execs: 1}
+	if out.Err != "" {
+		res.Inconcl = "closed loop: " + out.Err
+		return res
+	}
+	res.AddStat("closed_loop_runs", 1)
+	res.AddStat("closed_loop_moves_begun", int64(out.Moves))
+	res.AddStat("closed_loop_handovers_judged_with_own_counts", int64(out.IndependentHandovers))
+	res.Nontrivial = out.IndependentHandovers > 0
+	for _, v := range out.HandoverViol2 {
+		res.Violate("C05/closed-loop/early-removal", "%s", v)
+		break
+	}
+	for _, v := range out.HandoverViol {
+		res.Violate("C05/closed-loop/early-removal-by-reported-counts", "%s", v)
+		break
+	}
+	for _, v := range out.GapViol {
+		res.Violate("C05/closed-loop/scrape-gap", "%s", v)
+		break
+	}
+	if len(res.Viol) > 0 {
+		res.Witness = map[string]interface{}{"scenario": sc, "trace": out.Trace}
+	}
+	if k < 1 {
+		res.Sample = map[string]interface{}{"closed_loop_scenario": sc, "moves_begun": out.Moves, "handovers_judged": out.IndependentHandovers}
+	}
+	return res
+}
